@@ -604,7 +604,7 @@ def replay_login_tables():
     return dict(confirmed=False, n=n, call='login tables', observed='conform')
 
 
-def units(tier):
+def _own_units(tier):
     from . import c01
     fr = c01.ReadFrame()
     fr.prop, fr.name = 'C10', 'C10.frames-after-set-compression'
@@ -618,3 +618,8 @@ def units(tier):
     # every login script starts from plain framing: _connect() resets whatever an earlier login on the same object negotiated
     cm.prop, cm.name = 'C10', 'C10.connect.starts-plain'
     return [EncStep(), SimpleSteps(), DisconnectStep(), fr, LoginTables(), rl, cm]
+
+
+def units(tier):
+    from .deps import dependency_units
+    return _own_units(tier) + dependency_units('C10')
